@@ -1,5 +1,69 @@
-//! C12 — not implemented yet.
+//! C12 — interpolation, steering and clamping helpers hit endpoints and never overshoot.
+use vcore::*;
+
+mod gens;
+mod oracle;
+mod refm;
+
+pub trait Fl: Copy + std::fmt::Debug + 'static {
+    const BITS: u32;
+    fn fb(w: u64) -> Self;
+    fn tb(self) -> u64;
+    fn to64(self) -> f64;
+}
+impl Fl for f32 {
+    const BITS: u32 = 32;
+    #[inline] fn fb(w: u64) -> f32 { f32::from_bits(w as u32) }
+    #[inline] fn tb(self) -> u64 { self.to_bits() as u64 }
+    #[inline] fn to64(self) -> f64 { self as f64 }
+}
+impl Fl for f64 {
+    const BITS: u32 = 64;
+    #[inline] fn fb(w: u64) -> f64 { f64::from_bits(w) }
+    #[inline] fn tb(self) -> u64 { self.to_bits() }
+    #[inline] fn to64(self) -> f64 { self }
+}
+
+mod simd {
+    pub const VARIANT: &str = "simd";
+    /// Quat::slerp of this build uses the SSE2 polynomial sine
+    pub const SIMD_SIN: bool = cfg!(all(target_arch = "x86_64", target_feature = "sse2"));
+    use ::glam_simd as glam;
+    include!("suite.rs");
+}
+mod scalar {
+    pub const VARIANT: &str = "scalar";
+    pub const SIMD_SIN: bool = false;
+    use ::glam_scalar as glam;
+    include!("suite.rs");
+}
+mod libmv {
+    pub const VARIANT: &str = "libm";
+    pub const SIMD_SIN: bool = cfg!(all(target_arch = "x86_64", target_feature = "sse2"));
+    use ::glam_libm as glam;
+    include!("suite.rs");
+}
+#[cfg(feature = "core")]
+mod core_simd {
+    pub const VARIANT: &str = "core";
+    pub const SIMD_SIN: bool = false;
+    use ::glam_core as glam;
+    include!("suite.rs");
+}
+
 fn main() {
-    eprintln!("c12: not implemented");
-    std::process::exit(2);
+    let args = Args::parse();
+    let mut subs = vec![];
+    #[cfg(not(feature = "core"))]
+    {
+        subs.extend(simd::subs(&args));
+        subs.extend(scalar::subs(&args));
+        subs.extend(libmv::subs(&args));
+    }
+    #[cfg(feature = "core")]
+    {
+        subs.extend(core_simd::subs(&args));
+    }
+    let code = main_with("C12", "see MANIFEST / evidence rule", &args, subs);
+    std::process::exit(code);
 }
